@@ -93,7 +93,28 @@ def run(ctx, replay=None):
         else:
             ctx.violation("plan %s for strat=%d facts=%s violates %s" % (o["plan"], o["strat"], o["facts"], o["why"]), rep)
 
+    # 4. the plan as it is EXECUTED: runs on a real (simulated) directory after every user action of the life-cycle model;
+    #    RepoTrace.tla judges the plan set, "issuers first" in the plan and in the order the artifacts are written, and the
+    #    change type (the "so every entity is signed by its issuer's new certificate" half of the property)
+    slice_cov = {}
+    if replay is None:
+        from . import repo
+        plans = [dict(shape="chain", max_env=2, flags="m,c", extra="a;c,m,o", faults=False),
+                 dict(shape="star", max_env=1, flags="m,c,o", faults=False, env="Edit,Touch,DeleteArt,StripKey,SetIssuer,RemoveConfig,AddConfig")]
+        if not ctx.quick:
+            plans = [dict(shape="chain", max_env=3, flags="m,c,o", extra="a;e,m", faults=False),
+                     dict(shape="star", max_env=2, flags="m,c,o,e", faults=False, env="Edit,Touch,DeleteArt,StripKey,SetIssuer,RemoveConfig,AddConfig,Expire"),
+                     dict(shape="two", max_env=2, flags="m,c,o", extra="a", faults=False, env="Edit,Touch,DeleteArt,StripKey,SetIssuer,Replace")]
+        nlines = 0
+        for i, kw in enumerate(plans):
+            lines, _ = repo.explore(ctx, "c11ex%d" % i, **kw)
+            failed = repo.judge(ctx, lines, kw["shape"], "c11ex%d" % i)
+            repo.report(ctx, PROP, lines, failed, kw["shape"])
+            nlines += len(lines)
+        slice_cov = {"filesystem_slice_steps": nlines, "filesystem_slice": "runs after every user action (chain, star%s): plan set, plan order, write order, change type" % ("" if ctx.quick else ", two roots")}
+
     cov = {
+        **slice_cov,
         "states": table_states, "transitions": ctx.transitions,
         "traces_validated_against_impl": len(judged),
         "samples": [_strip(o) for o in (sample[:2] + fails[:1])],
